@@ -290,6 +290,8 @@ def ctor_rule(ctx, rule: str):
             out = []
             inits = [e for e in o.path.effects if e[0] == "super-init"]
             linear = isinstance(topo, str) and topo.lower() == "linear"
+            if o.kind == "raise" and ("deepcopy-fails", True) in o.path.choices and o.value.name == "TypeError" and not inits:
+                return []  # a record that cannot be deep-copied is refused: nothing is shared
             if linear:
                 ok = o.kind == "raise" and o.value.name == "ValueError" and not inits
                 return [(rule + ".topology-guard", name, ok,
@@ -326,7 +328,7 @@ def ctor_rule(ctx, rule: str):
                             "wrapping an existing record must deep-copy its annotations, got %r (%s)" % (got, type(got).__name__)))
             return out
 
-        emit(ctx, run_paths(ctx, fi, make_args, [N - 1], hooks={"lib_super": lib_super}, post=post), fi.where(), "%s,%s:" % (how, topo))
+        emit(ctx, run_paths(ctx, fi, make_args, [N - 1], hooks={"lib_super": lib_super, "deepcopy_may_fail": True}, post=post), fi.where(), "%s,%s:" % (how, topo))
     ctx.report.floor(rule + ".topology-guard", 4)
     ctx.report.floor(rule + ".deepcopy", 16)
 
